@@ -24,7 +24,12 @@ SNIPPETS = ["x = b'a' 'b'\n", "x = (1,\n\n 2) 3\n", "a = '''m\nn\no''' = 1\n", "
             # an error with a one-line location right before a multi-line token (the text shown must stay within the range)
             "x = 1 if 2 \"\"\"a\nb\"\"\"\n", "y = (1 if 2 '''p\nq\nr''')\nz = 3\n", "import a.b as c.d '''s\nt'''\n",
             # a form feed inside a line (not a line boundary)
-            "x = \"a\x0cb\" 1\ny = 2\n"]
+            "x = \"a\x0cb\" 1\ny = 2\n",
+            # an error range that spans several lines and starts a few lines into the text (lines 3..5, 2..3, 2..4, 4..7): the
+            # file reader must keep reading until every requested line is there
+            "import os\nimport sys\nz = (p +\n     q +\n     r  s)\n", "import os\nx = (a\n     b, c\n     )\ny = 1\n",
+            "import os\nf(a +\n  b +\n  c  d)\nz = 1\n", "a = 1\nb = 2\nc = 3\nf(a,\n  b +\n  c +\n  d  e)\nq = 0\n",
+            "x = 1\ny = [a,\n     b\n     c]\n", "x = 1\ny = 2\nfoo(p for p in q,\n    r)\n"]
 
 
 # one valid program per construct of the grammar (targets, calls, comprehensions, definitions, imports, compound
